@@ -75,6 +75,12 @@ def run_impl(case):
 
     def _ask(K, op, arg, base, raw=False):
         cv = (lambda x: x) if raw else canon
+        if op == 'repr':      # read-only observers (must not change the context)
+            repr(K)
+            str(K)
+            K.print_data(max_n_objects=arg[0] if arg else 3, max_n_attributes=base[0] if base else 3)
+            hash(K.data)
+            return None
         if op == 0:
             return cv(K.extension_i(list(arg), None if base is None else list(base)))
         if op == 1:
@@ -136,7 +142,15 @@ def _mk(backend, t, op, arg, base, onames=None, anames=None, kind=''):
 
 
 def random_case(rng, max_dim):
-    t, kind = gen.random_table(rng, max_dim, max_dim)
+    if rng.random() < 0.06:
+        # wide / tall tables (printing abbreviates beyond 10 attributes / 20 objects)
+        if rng.random() < 0.7:
+            t, kind = gen.random_table(rng, 4, 13, min_h=2, min_w=11)
+        else:
+            t, kind = gen.random_table(rng, 13, 3, min_h=11, min_w=1)
+        kind += '+wide'
+    else:
+        t, kind = gen.random_table(rng, max_dim, max_dim)
     h, w = len(t), len(t[0])
     b = rng.choice(BACKENDS)
     op = rng.choice([0, 0, 1, 1, 2, 3, 4, 5, 6, 7])
@@ -202,6 +216,16 @@ def random_case(rng, max_dim):
                 others = [x for x in range(n_a) if x != first]
                 k = rng.randint(1, max(1, min(len(others), max(1, n_a // 2 - 1))))
                 pre.append([op, [first] + rng.sample(others, k), None])
+        if op < 4 and rng.random() < 0.4:
+            # a question of the OTHER family about the same sets (a helper shared by rows and columns
+            # code, e.g. a memoised mask, must not leak between them)
+            other_ops = (0, 2) if on_rows else (1, 3)
+            base_now = c['base'] if c['base'] is not None else []
+            o_arg = list(base_now) if (base_now and rng.random() < 0.7) else rng.sample(range(w if on_rows else h), rng.randint(0, (w if on_rows else h)))
+            o_base = None if rng.random() < 0.5 else list(c['arg'])
+            pre.insert(rng.randint(0, len(pre)), [rng.choice(other_ops), o_arg, o_base])
+        if rng.random() < 0.25:
+            pre.insert(rng.randint(0, len(pre)), ['repr', [rng.randint(1, 4)], [rng.randint(1, 12)]])
         c['pre'] = pre
         c['kind'] += '+pre'
     if op >= 4 and rng.random() < 0.2:
